@@ -132,7 +132,7 @@ func (g *tmplGen) elem(cond string) *TNode {
 	case c < 70:
 		e.Name = g.r.Pick([]string{"div", "p", "span", "li", "ul", "b", "DIV"})
 	case c < 78:
-		e.Name = g.r.Pick([]string{"br", "img", "input"})
+		e.Name = g.r.Pick([]string{"br", "img", "input", "IMG", "Input", "BR"}) // void whatever the spelling
 		e.Void = true
 	case c < 86:
 		e.Name = g.r.Pick([]string{"p", "span", "i"})
@@ -483,6 +483,14 @@ func (g *tmplGen) layout(ts *TmplSet) {
 		default:
 			other["dir/lib2.html"] += "<div>" + def + "</div>"
 		}
+	}
+	if g.r.Chance(10) {
+		// twin fragments: two FILES of one manager carry a different range expression at the same line and column
+		// (anything keyed by a source position must also be keyed by the file)
+		coll := g.r.Pick([]string{"ns", "st.Tags", "word"})
+		mainSrc = "<template " + g.ap + `define="pm"><i ` + g.ap + `range="_, q : xs" ` + g.ap + `text="${q}"></i></template>` + mainSrc +
+			"<b " + g.ap + `insert="pm"></b><b ` + g.ap + `insert="pc"></b>`
+		other["lib.html"] = "<template " + g.ap + `define="pc"><i ` + g.ap + `range="_, q : ` + coll + `" ` + g.ap + `text="${q}"></i></template>` + other["lib.html"]
 	}
 	ts.Files = append(ts.Files, [2]string{"main.html", mainSrc})
 	var on []string
